@@ -43,6 +43,9 @@ type JCase struct {
 	// the Order-th permutation; an option's effect must not depend on which other options accompany it, or where
 	AllOpts bool `json:"all_opts,omitempty"`
 	Order   int  `json:"order,omitempty"`
+	// Overridden (with AllOpts): the list starts with every option set to the OPPOSITE value (another indent string);
+	// each option sets its value, so the later occurrence is the one in effect
+	Overridden bool `json:"overridden,omitempty"`
 	// a MarshalJSON call that fails, made through the adapter right before the case's own (0 = none)
 	Prelude int `json:"prelude,omitempty"`
 	// > 0: instead of Value, a chain of that many messages nested through the type's first self-recursive field
@@ -57,6 +60,14 @@ func (c *JCase) optList(own ...csproto.JSONOption) []csproto.JSONOption {
 	all := []csproto.JSONOption{csproto.JSONIndent(c.Indent), csproto.JSONUseEnumNumbers(c.EnumNumbers), csproto.JSONIncludeZeroValues(c.ZeroValues),
 		csproto.JSONAllowUnknownFields(c.AllowUnknown), csproto.JSONAllowPartialMessages(c.AllowPartial)}
 	var out []csproto.JSONOption
+	if c.Overridden {
+		other := "   "
+		if c.Indent == other {
+			other = "\t\t"
+		}
+		out = append(out, csproto.JSONIndent(other), csproto.JSONUseEnumNumbers(!c.EnumNumbers), csproto.JSONIncludeZeroValues(!c.ZeroValues),
+			csproto.JSONAllowUnknownFields(!c.AllowUnknown), csproto.JSONAllowPartialMessages(!c.AllowPartial))
+	}
 	k := c.Order
 	if k < 0 {
 		k = -k
@@ -446,7 +457,7 @@ func jsonTypes() []*MsgType {
 	return out
 }
 
-const ruleC18 = "case = (message type of the corpus for gogo / Google v1 (legacy) / Google v2, plain and fast-marshal; value incl. enums, 64-bit integers, bytes, maps, oneofs, well-known types as fields and - Value (every kind incl. null), Struct, ListValue, Timestamp, wrappers of Google v2 and gogo - as top-level messages; the 2^3 marshal option combinations, each adapter call with its own options only or (1 in 2) with all five options in one of the 120 orders; indent in {\"\", \" \", \"  \", \"\\t\", \" \\t\"}; JSON with/without an injected unknown key x AllowUnknownFields (also for documents nested 99..400 levels deep through recursive types); JSON with/without a required field - the message's own or one of a child, incl. proto2 children of a proto3 message - x AllowPartialMessages (Google v2); 1 in 3 right after a MarshalJSON call that the runtime refuses (out-of-range Timestamp / Duration, also as a later list element; required field missing in a child)); oracle: json.Valid, adapter round trip == original, the OWNING runtime's JSON decoder accepts the output and decodes the original, structural probes for every option, nil => (nil, nil) (untyped nil and typed nil pointers of every corpus package and of the well-known types that implement json.Marshaler themselves), unmarshal into nil => error; non-trivial = message with >= 1 enum / 64-bit / bytes / map field set and >= 1 option set; distinct by case content"
+const ruleC18 = "case = (message type of the corpus for gogo / Google v1 (legacy) / Google v2, plain and fast-marshal; value incl. enums, 64-bit integers, bytes, maps, oneofs, well-known types as fields and - Value (every kind incl. null), Struct, ListValue, Timestamp, wrappers of Google v2 and gogo - as top-level messages; the 2^3 marshal option combinations, each adapter call with its own options only or (1 in 2) with all five options in one of the 120 orders (1 in 2 of those preceded by the same five options set to the opposite values: the later occurrence is in effect); indent in {\"\", \" \", \"  \", \"\\t\", \" \\t\"}; JSON with/without an injected unknown key x AllowUnknownFields (also for documents nested 99..400 levels deep through recursive types); JSON with/without a required field - the message's own or one of a child, incl. proto2 children of a proto3 message - x AllowPartialMessages (Google v2); 1 in 3 right after a MarshalJSON call that the runtime refuses (out-of-range Timestamp / Duration, also as a later list element; required field missing in a child)); oracle: json.Valid, adapter round trip == original, the OWNING runtime's JSON decoder accepts the output and decodes the original, structural probes for every option, nil => (nil, nil) (untyped nil and typed nil pointers of every corpus package and of the well-known types that implement json.Marshaler themselves), unmarshal into nil => error; non-trivial = message with >= 1 enum / 64-bit / bytes / map field set and >= 1 option set; distinct by case content"
 
 // ---- well-known types as TOP-LEVEL messages (their JSON form is not an object: null, number, string, array) ----
 
@@ -596,6 +607,9 @@ func TestC18(t *testing.T) {
 		if rapid.Bool().Draw(rt, "allopts") {
 			c.AllOpts, c.Order = true, rapid.IntRange(0, 119).Draw(rt, "order")
 			rec.Class("all-five-options-in-a-drawn-order")
+			if c.Overridden = rapid.Bool().Draw(rt, "overridden"); c.Overridden {
+				rec.Class("options-preceded-by-their-opposites")
+			}
 		}
 		if rapid.IntRange(0, 2).Draw(rt, "hasprelude") == 0 {
 			c.Prelude = rapid.IntRange(1, len(jsonPreludes)-1).Draw(rt, "prelude")
